@@ -138,6 +138,8 @@ def catalogue():
         branch("b2", [step("s21", [irq("a3")])], **{"else": True}),
     ]), step("s2", [irq("a4")])]), {"c1": "$bool", "c2": "$bool"})
     C["par_block"] = (wf("m", [step("s1", [block("blk", "parallel", [irq("a1"), irq("a2"), irq("a3")])]), step("s2", [irq("a4")])]), {})
+    C["cancel_par"] = (wf("m", [step("s1", [irq("a1")]), step("s2", [{"id": "gen", "uses": "acts.core.parallel", "params": {"in": ["u", "v"], "acts": [{"uses": "acts.core.irq", "key": "r"}]}}]),
+                                step("s3", [irq("a9")])]), {})
     C["seq_block"] = (wf("m", [step("s1", [block("blk", "sequence", [irq("a1"), irq("a2")])])]), {})
     return C
 
